@@ -32,6 +32,11 @@ TABLE = {
             'saslServer->username() and the domain; handleStanza is explored with "jid empty": bind, session reply, connected and routing are unreachable; with a foreign from: '
             'routing unreachable; empty from: stamped from the authenticated jid on every routed path; the password-reply handler is explored per checker verdict.',
             'Behaviour over all client scripts on real sockets and third-party server extensions is not decided; the password checker is trusted.', 'DESIGN.md §2 C16'),
+    'C17': ('control-dependence region map of every message field in the one writer and the one reader (who-is-written-under-which-mode-guard) + compile-time witness of the mode predicate',
+            'Static: each QXmppMessagePrivate field read in serializeExtensions / written in parseExtension is assigned the mode guard it is control-dependent on; the conversational '
+            'fields named by the property may only appear under the Sensitive guard (a leak is one element outside its guard, visible as region membership for every message at once), '
+            'each field in exactly one part, writer and reader agree; operator&(SceMode,SceMode) is decided by the compiler for all 9 pairs; the encrypted send path passes the constant ScePublic.',
+            'Value-level recovery of every field after the two-pass parse and unknown application extensions are not decided; OMEMO code is not part of the configured build.', 'DESIGN.md §2 C17'),
 }
 
 NOT_APPLICABLE_REASON = 'check not built yet in this session (see DESIGN.md); listed here until qxverif/rules/<id>.py exists'
